@@ -188,13 +188,19 @@ class _InternalBaseTracer(_InternalBaseTracerSuper, metaclass=MetaTracerStateMac
                 for handler_spec in handlers:
                     predicate = handler_spec.predicate
                     if hasattr(predicate, "condition"):
-                        condition: Optional[Callable[..., bool]] = getattr(
-                            self,
-                            getattr(predicate.condition, "__name__", "<empty>"),
-                            None,
+                        # a condition written as a method in a class body of this hierarchy is bound to
+                        # the instance (looked up by name, so that subclasses may override it); any other
+                        # callable is left alone, whatever attribute of the tracer happens to share its name
+                        unbound = getattr(
+                            predicate, "_unbound_condition", predicate.condition
                         )
-                        if condition is not None:
-                            predicate.condition = condition
+                        name = getattr(unbound, "__name__", "<empty>")
+                        if any(
+                            vars(cls).get(name) is unbound
+                            for cls in self.__class__.mro()
+                        ):
+                            predicate._unbound_condition = unbound
+                            predicate.condition = getattr(self, name)
                 self._event_handlers[evt].extend(handlers)
                 self._handler_names |= {handler[0].__name__ for handler in handlers}
                 if not issubclass(BaseTracer, clazz) and len(handlers) > 0:
